@@ -50,10 +50,21 @@ def _note_sort(s, sorts):
         _note_sort(s.range(), sorts)
 
 
-def finite_scope_smt2(smt2, scope=3, timeout_ms=10000):
+def finite_scope_smt2(smt2, scope=3, timeout_ms=10000, selector=None):
     # parsed into the process's main context (candidate search only: verdicts
     # proper are always produced in fresh contexts)
     fs = list(z3.parse_smt2_string(smt2))
+    if selector is not None:
+        # keep only the selected goal of the group
+        sel = z3.Bool(selector)
+        keep = []
+        for f in fs:
+            if z3.is_implies(f) and z3.is_const(f.arg(0)) and f.arg(0).decl().name().startswith('sel!'):
+                if f.arg(0).eq(sel):
+                    keep.append(f.arg(1))
+                continue
+            keep.append(f)
+        fs = keep
     r = _finite(fs, scope, timeout_ms, None)
     if r is not None:
         r['ctx'] = None
